@@ -42,8 +42,10 @@ Proof.
   - rewrite presets_dim_length. reflexivity.
 Qed.
 
+Definition step_static (s : stride) : Prop := sstep s <> None.
+
 Lemma step_scan_static el : forall (flat : list stride) (vals : list (Z * option Z)) dyn,
-  Forall stride_ok flat -> length vals = length flat ->
+  Forall step_static flat -> length vals = length flat ->
   snd (fold_right (step_scan_md el) (dyn, []) (combine flat vals)) = map (fun s => sstp s * el) flat.
 Proof.
   induction flat as [|s flat IH]; intros vals dyn Hok Hl; [reflexivity|].
@@ -51,20 +53,29 @@ Proof.
   cbn [combine fold_right map].
   specialize (IH vals dyn Hr ltac:(simpl in Hl; lia)).
   destruct (fold_right (step_scan_md el) (dyn, []) (combine flat vals)) as [dy out] eqn:E.
-  cbn [snd] in IH. subst out. destruct Hs as [a [b [-> _]]]. reflexivity.
+  cbn [snd] in IH. subst out. destruct s as [[a|] b]; [|exfalso; apply Hs; reflexivity].
+  destruct b; reflexivity.
+Qed.
+
+Lemma step_vals_md_steps l fb el md : Forall step_static (all_strides l) -> length fb = length (all_strides l) ->
+  step_vals_md l fb el md = map (fun s => sstp s * el) (all_strides l).
+Proof.
+  intros Hok Hl. unfold step_vals_md. destruct (max_static_step (all_strides l)) as [mk mv].
+  apply step_scan_static; [exact Hok|].
+  rewrite combine_length. destruct md as [[ms o]|].
+  - unfold all_strides. rewrite presets_length. unfold all_strides in Hl. lia.
+  - rewrite map_length. lia.
+Qed.
+
+Lemma layout_ok_steps l : layout_ok l -> Forall step_static (all_strides l).
+Proof.
+  intros Hok. apply Forall_forall. intros s Hs. unfold all_strides in Hs. apply in_concat in Hs as [t [Ht Hs]].
+  destruct (proj1 (Forall_forall _ _) (proj1 (Forall_forall _ _) Hok t Ht) s Hs) as [a [b [-> _]]]. discriminate.
 Qed.
 
 Lemma step_vals_md_static l fb el md : layout_ok l -> length fb = length (all_strides l) ->
   step_vals_md l fb el md = map (fun s => sstp s * el) (all_strides l).
-Proof.
-  intros Hok Hl. unfold step_vals_md. destruct (max_static_step (all_strides l)) as [mk mv].
-  apply step_scan_static.
-  - apply Forall_forall. intros s Hs. unfold all_strides in Hs. apply in_concat in Hs as [t [Ht Hs]].
-    apply (proj1 (Forall_forall _ _) (proj1 (Forall_forall _ _) Hok t Ht) s Hs).
-  - rewrite combine_length. destruct md as [[ms o]|].
-    + unfold all_strides. rewrite presets_length. unfold all_strides in Hl. lia.
-    + rewrite map_length. lia.
-Qed.
+Proof. intros Hok. apply step_vals_md_steps, layout_ok_steps, Hok. Qed.
 
 (* ---- remaining strides ---------------------------------------------------------------------------- *)
 Definition gval (el : Z) (p : stride * stride) : stride * (Z * Z * Z) :=
@@ -113,6 +124,14 @@ Proof. induction l as [|x l IH]; [reflexivity|]. cbn [map filter]. destruct (f (
 Lemma pair_ok_vals el p : pair_ok p ->
   snd (gval el p) = (tb (tri_of p), tsrc (tri_of p) * el, tdst (tri_of p) * el).
 Proof. intros [[a [b [E1 _]]] [c [d [E2 _]]]]. destruct p as [s1 s2]. cbn [fst snd] in *. subst. reflexivity. Qed.
+
+Lemma rem_list_filter src dst :
+  rem_list src dst = filter (fun p => negb (value_in (fst p) (lccb src dst 1)))
+                            (combine (all_strides src) (all_strides dst)).
+Proof.
+  unfold rem_list. rewrite <- !map_snd_entries, <- map_sp_combine. symmetry.
+  apply (filter_map_comm (fun p : stride * stride => negb (value_in (fst p) (lccb src dst 1))) sp).
+Qed.
 
 (* ---- the two lowerings agree on static layouts ----------------------------------------------------- *)
 Theorem lower_dyn_static (src dst : layout) (el so do_ : Z) (smd dmd : rtmd) :
